@@ -199,7 +199,7 @@ def _strip_attrs(operand):
     return " ".join(ty), val
 
 
-_META = re.compile(r",\s*!\w+ !\d+")
+_META = re.compile(r",\s*![\w.]+ !\d+")
 _ALIGN = re.compile(r",\s*align \d+")
 _ATTRNUM = re.compile(r"\s+#\d+$")
 _FLAGSET = {"nsw", "nuw", "exact", "fast", "nnan", "ninf", "nsz", "arcp", "contract", "reassoc", "afn", "inbounds", "volatile", "tail", "notail", "musttail"}
